@@ -89,8 +89,12 @@ class SList(Sym):
         self.arr = arr         # z3 Array Int -> elem.sort()
         self.elem = elem       # Type
 
+    distinct = False      # known to hold no value twice (set by models that guarantee it)
+
     def copy(self):
-        return SList(self.len, self.arr, self.elem)
+        c = SList(self.len, self.arr, self.elem)
+        c.distinct = self.distinct
+        return c
 
     def __repr__(self):
         return f"SList(len={self.len})"
